@@ -155,6 +155,16 @@ class VIndexOf(V):
   def py_getitem(self, ex, idx, node):
     if isinstance(idx, VMask) and idx.table is self.table:
       return VIndexSel(self.table, idx.pred)
+    if isinstance(idx, (VInt, VBool)) and hasattr(self.table, 'labels') and (
+        self.table.labels is not None):
+      lab = self.table.labels
+      i = num_term(idx)
+      ex.safety(z3.And(i >= -lab.length, i < lab.length), 'IndexError', node,
+                'index position')
+      out = VInt(lab.at(z3.If(i < 0, i + lab.length, i)))
+      if z3.is_const(i):
+        out.image_of = lab
+      return out
     ex.unsupported(node, 'index[...]')
 
   def py_tolist(self, ex, node):
